@@ -11,11 +11,18 @@ Definition Ratan2 (y x : R) : R :=
   else if Rlt_dec x 0 then (if Rle_dec 0 y then atan (y / x) + PI else atan (y / x) - PI)
   else if Rlt_dec 0 y then PI / 2 else if Rlt_dec y 0 then - PI / 2 else 0.
 
+Definition Rof_dec (m e : Z) : R :=
+  match e with
+  | Z0 => IZR m
+  | Zpos p => (IZR m * IZR (Z.pow 10 (Zpos p)))%R
+  | Zneg p => (IZR m / IZR (Z.pow 10 (Zpos p)))%R
+  end.
+
 #[export] Instance RNum : Num := {|
   T := R; zero := 0%R; one := 1%R;
   add := Rplus; sub := Rminus; mul := Rmult; div := Rdiv; opp := Ropp;
   nabs := Rabs; nsqrt := R_sqrt.sqrt; nexp := exp; nln := ln; nsin := sin; ncos := cos;
-  natan2 := Ratan2; npi := PI; of_Z := IZR;
+  natan2 := Ratan2; npi := PI; of_Z := IZR; of_dec := Rof_dec;
   leb := Rleb; ltb := Rltb; eqb := Reqb;
   ntrunc := fun x => if Rle_dec 0 x then Int_part x else (- Int_part (- x))%Z;
   nfloor := Int_part;
